@@ -3,6 +3,8 @@
 package cl
 
 import (
+	"io"
+
 	"github.com/ohler55/slip"
 )
 
@@ -59,11 +61,17 @@ func (f *UnreadChar) Call(s *slip.Scope, args slip.List, depth int) slip.Object 
 	if 1 < len(args) {
 		is = args[1]
 	}
-	var rp runePusher
-	if rp, ok = is.(runePusher); !ok {
+	switch ts := is.(type) {
+	case runePusher:
+		ts.PushRune(rune(c))
+	case io.RuneScanner:
+		// A stream that can step back itself, a string stream.
+		if err := ts.UnreadRune(); err != nil {
+			ss, _ := is.(slip.Stream)
+			slip.StreamPanic(s, depth, ss, "unread-char failed. %s", err)
+		}
+	default:
 		slip.TypePanic(s, depth, "stream", is, "input-stream")
 	}
-	rp.PushRune(rune(c))
-
 	return nil
 }
